@@ -89,6 +89,10 @@ v("break-c02-no-quote-check", "break", "C02", "SQL-TAINT", [(B, "\t\tif strings.
 v("break-c02-no-doubling", "break", "C02", "SQL-TAINT", [(B, "return fmt.Sprintf(\"'%s'\", strings.ReplaceAll(v, \"'\", \"''\")), nil", "return fmt.Sprintf(\"'%s'\", v), nil")])
 v("break-c02-nul", "break", "C02", "SQL-LEAF", [(RF, "\tif strings.ContainsRune(left, 0) {\n\t\treturn \"\", fmt.Errorf(\"literal contains null byte: %q\", left)\n\t}\n", "")])
 v("break-c02-cast", "break", "C02", "SQL-VOCAB", [(RF, 'return fmt.Sprintf("%s IN %s", left, right), nil', 'return fmt.Sprintf("%s::text IN %s", left, right), nil')])
+v("break-c02-cut-first-match", "break", "C02", "SPLIT-SAFE", [
+    (RF, "\trangeSlice := strings.Split(stripped, \",\")\n\n\tif len(rangeSlice) != 2 {\n\t\treturn \"\", fmt.Errorf(\"the BETWEEN operator needs a two item list in the right hand side, have %s\", right)\n\t}\n\n\trawMin := strings.Trim(rangeSlice[0], \" \")\n\trawMax := strings.Trim(rangeSlice[1], \" \")\n\n\tiMin, iMax, err := toInts(rawMin, rawMax)\n\tif err == nil {\n\t\tif rawMin == \"'*'\" {\n\t\t\tif inclusive {\n\t\t\t\treturn fmt.Sprintf(\"%s <= %d\", left, iMax), nil",
+         "\tminPart, maxPart, found := strings.Cut(stripped, \",\")\n\trangeSlice := []string{minPart, maxPart}\n\n\tif !found {\n\t\treturn \"\", fmt.Errorf(\"the BETWEEN operator needs a two item list in the right hand side, have %s\", right)\n\t}\n\n\trawMin := strings.Trim(rangeSlice[0], \" \")\n\trawMax := strings.Trim(rangeSlice[1], \" \")\n\n\tiMin, iMax, err := toInts(rawMin, rawMax)\n\tif err == nil {\n\t\tif rawMin == \"'*'\" {\n\t\t\tif inclusive {\n\t\t\t\treturn fmt.Sprintf(\"%s <= %d\", left, iMax), nil"),
+], "strings.Cut without checking that the separator does not occur again: a first-match split")
 v("break-c02-finite", "break", "C02", "NUM-FINITE", [(P, "if err == nil && !math.IsNaN(fval) && !math.IsInf(fval, 0) {", "if err == nil && !math.IsNaN(fval) {")])
 v("break-c03-swap-ops", "break", "C03", "SQL-OPMAP", [(B, "expr.Greater:   greater,\n\texpr.GreaterEq: greaterEq,", "expr.Greater:   greaterEq,\n\texpr.GreaterEq: greater,")])
 v("break-c03-range-op", "break", "C03", "SQL-RANGE", [(RF, 'return fmt.Sprintf("%s >= %d", left, iMin), nil', 'return fmt.Sprintf("%s > %d", left, iMin), nil')])
